@@ -35,7 +35,7 @@ Step ==
      IF bad = {} THEN last' = <<e.k, e.op, e.t>> /\ TLCSet(1, TLCGet(1) + 1) /\ TLCSet(3, TLCGet(3) + NL(e.t))
      ELSE /\ PrintT("REJECT id=" \o ToString(e.id) \o " k=" \o e.k \o " op=" \o e.op \o " t=" \o e.t \o " lanes=" \o ToString(bad) \o " archs=" \o ToString(e.archs) \o " known=-"
                     \o (IF bad = {-1} THEN "" ELSE LET i == CHOOSE j \in bad : \A k \in bad : j <= k IN
-                          " lane=" \o ToString(i) \o " z=" \o ToString(<<Lane(e.a, e.t, i), Lane(e.b, e.t, i)>>) \o " r=" \o ToString(<<Lane(SubSeq(e.r, 1, 64), e.t, i)>>)))
+                          " lane=" \o ToString(i) \o " z=" \o (IF "b" \in DOMAIN e THEN ToString(<<Lane(e.a, e.t, i), Lane(e.b, e.t, i)>>) ELSE "-") \o " r=" \o (IF Len(e.r) >= 64 THEN ToString(<<Lane(SubSeq(e.r, 1, 64), e.t, i)>>) ELSE ToString(e.r))))
           /\ TLCSet(2, TLCGet(2) + 1) /\ UNCHANGED last
   /\ l' = l + 1 /\ TLCSet(4, l)
 Next == Step
